@@ -87,6 +87,16 @@ def compare(ctx, items, stats, tag):
         if m["verdict"] == "reject" and len(set(m["ids"])) > 1:
             stats["multi_candidate"] += 1
         it["model"] = m
+        for hname, hv in m["hyps"].items():
+            stats["hyps"][hname] += int(hv)
+        sound_hyps = m["hyps"]["uniform"] and m["hyps"]["wf_shape"]
+        compl_hyps = sound_hyps and all(m["hyps"][h] for h in ("h_exit", "all_reached", "events_wf", "io_ok", "exit_reachable"))
+        stats["hyps"]["lin_sound applies"] += int(sound_hyps)
+        stats["hyps"]["lin_complete applies"] += int(compl_hyps)
+        if not m["hyps"]["wf_shape"] or not m["hyps"]["events_wf"] or not m["hyps"]["io_ok"]:
+            # these are properties of every CFG the front end / flatten produce
+            ctx.report(it["key"] + ":hyps", "correspondence", "structural hypotheses of the theorems",
+                       {"program": it["text"], "function": it["name"], "hypotheses": m["hyps"]})
         why = tie.agree(r, m, r["names"])
         spec = spec_paths.check(it["fn"]) if it.get("fn") else None
         it["spec"] = spec
@@ -125,7 +135,7 @@ def run(ctx) -> int:
     stats = {"evaluations": 0, "pre": 0, "unmodelled": 0, "disagreements": 0, "unsound": 0,
              "incomplete": 0, "boundary_while_true": 0, "multi_candidate": 0,
              "impl_verdicts": Counter(), "model_verdicts": Counter(), "blocks_hist": Counter(),
-             "unmodelled_reasons": Counter()}
+             "unmodelled_reasons": Counter(), "hyps": Counter()}
 
     # ---- corpus first -------------------------------------------------------------------
     items = []
@@ -177,6 +187,7 @@ def run(ctx) -> int:
         impl_verdicts=dict(stats["impl_verdicts"]), model_verdicts=dict(stats["model_verdicts"]),
         blocks_histogram={str(k): v for k, v in sorted(stats["blocks_hist"].items())},
         rejections_with_several_candidate_places=stats["multi_candidate"],
+        theorem_hypotheses_hold_on=dict(stats["hyps"]),
         disagreements=stats["disagreements"], search_unsound=stats["unsound"], search_incomplete=stats["incomplete"],
         search_boundary_while_true=stats["boundary_while_true"], samples=samples,
         seconds={"proofs": t_proofs, "total": round(time.time() - t0, 1)})
